@@ -596,6 +596,14 @@ def check_C10(A: Analysis, tier):
                                 "leaves the list empty and every other pid sharing the object loses its reference", A.p.loc(ev.func, ev.node))
     rules.append(rf)
 
+    c9 = [r for r in check_C09(A, tier) if r.rid == "C09.a"][0]
+    rg = Rule("C10", "C10.g", "no permanent object / metadata / pid-reference file is created or written in place (shared with "
+              "C09.a): a death can then never leave a partial or empty file at an address the recovery code trusts", floor=c9.floor)
+    rg.instances, rg.nontrivial, rg.obligations = list(c9.instances), set(c9.nontrivial), c9.obligations
+    for f in c9.findings:
+        rg.fail(f.func, f.construct, f.message + " (after a crash the duplicate-content branch / look-up would trust this file)", f.loc, f.detail)
+    rules.append(rg)
+
     re_ = Rule("C10", "C10.e", "adding a pid to an existing cid list is guarded by a negative membership test "
                "(re-tagging after a crash tolerates a pid already listed)", floor=1)
     for m in ALL_MODES:
@@ -1082,7 +1090,8 @@ def check_C18(A: Analysis, tier):
             it = A.api(e, m)
             for ev in it.events:
                 if ev.kind == "WRITE" and ev.prim == "file.write" and len(ev.paths) > 1 and \
-                        any(c.cls in ("CIDREFS", "PIDREFS") or (c.cls == "TMP" and c.key == C("refs")) for c in ev.classes[0]):
+                        (ev.func.qual in (Q("_write_refs_file"), Q("_update_refs_file")) or
+                         any(c.cls in ("CIDREFS", "PIDREFS") or (c.cls == "TMP" and c.key == C("refs")) for c in ev.classes[0])):
                     rc.ob()
                     rc.inst(f"{ev.func.qual}:{ev.line} writes {showv(ev.paths[1])[:50]}")
                     for t in ev.paths[1]:
